@@ -49,10 +49,13 @@ impl SassError {
         }
     }
 
-    pub(crate) fn raw(self) -> (String, Span) {
+    /// The message and span of an error that has not been located yet, or the
+    /// error itself when it already is a public kind (an I/O or UTF-8 failure
+    /// while loading an imported file).
+    pub(crate) fn raw(self) -> Result<(String, Span), Self> {
         match self.kind {
-            SassErrorKind::Raw(string, span) => (string, span),
-            e => unreachable!("unable to get raw of {:?}", e),
+            SassErrorKind::Raw(string, span) => Ok((string, span)),
+            kind => Err(SassError { kind }),
         }
     }
 
